@@ -38,6 +38,21 @@ theorem bytesNat_natBytes (n : Nat) : bytesNat (natBytes n) = some n := by
   simp only [hne, hall, hf]
   simp
 
+theorem posNat_of_no_plus (l : List Nat) (h : 43 ∉ l) :
+    posNat l = match bytesNat l with
+      | some n => if n < 2 ^ 64 then some n else none
+      | none => none := by
+  unfold posNat
+  split
+  · rename_i r
+    exact absurd (by simp) h
+  · rfl
+
+theorem posNat_natBytes (n : Nat) (hn : n < 2 ^ 64) : posNat (natBytes n) = some n := by
+  have h43 : 43 ∉ natBytes n := fun hb => by have := natBytes_range n 43 hb; omega
+  rw [posNat_of_no_plus _ h43, bytesNat_natBytes]
+  simp [hn]
+
 /-! ## genotype spellings -/
 
 theorem renderGt_cases (g : GtRes) (h : WfGt g) :
@@ -118,8 +133,8 @@ theorem contigChars_ok (c : String) (hc : WfContig c) :
   · exact .inl (.inl (.inr h))
   · exact .inl (.inr h)
 
-theorem parseVcfRecord_recLine (c : String) (hc : WfContig c) (p : Nat) (hp : 1 ≤ p) (gts : List GtRes)
-    (hne : gts ≠ []) (hg : ∀ g ∈ gts, WfGt g) :
+theorem parseVcfRecord_recLine (c : String) (hc : WfContig c) (p : Nat) (hp : 1 ≤ p) (hp64 : p < 2 ^ 64)
+    (gts : List GtRes) (hne : gts ≠ []) (hg : ∀ g ∈ gts, WfGt g) :
     parseVcfRecord gts.length (recLine c p gts) = some (.gts c p gts) := by
   have hs : (gts.map renderGt).isEmpty = false := by
     cases gts with
@@ -140,7 +155,7 @@ theorem parseVcfRecord_recLine (c : String) (hc : WfContig c) (p : Nat) (hp : 1 
     simpa using mapM_sampleGt gts hg
   unfold parseVcfRecord
   rw [splitBytes_recLine c hc p gts hg]
-  simp only [wfContig_ascii hc, hcne, contigChars_ok c hc, bytesNat_natBytes, hs, hk0, hkeys]
+  simp only [wfContig_ascii hc, hcne, contigChars_ok c hc, posNat_natBytes p hp64, hs, hk0, hkeys]
   simp [hp', hb1, hb2, hb3, hk1, hasDupEntry, htake]
   split
   · rename_i h
@@ -177,14 +192,15 @@ theorem recLine_isEmpty (c : String) (hc : WfContig c) (p : Nat) (gts : List GtR
 def recLines (recs : List (String × Nat × List GtRes)) : List (List Nat) := recs.map (fun r => recLine r.1 r.2.1 r.2.2)
 
 theorem parseVcfRecords_recLines (recs : List (String × Nat × List GtRes))
-    (n : Nat) (hr : ∀ r ∈ recs, WfContig r.1 ∧ 1 ≤ r.2.1 ∧ r.2.2 ≠ [] ∧ (∀ g ∈ r.2.2, WfGt g) ∧ r.2.2.length = n) :
+    (n : Nat) (hr : ∀ r ∈ recs, WfContig r.1 ∧ 1 ≤ r.2.1 ∧ r.2.2 ≠ [] ∧ (∀ g ∈ r.2.2, WfGt g) ∧ r.2.2.length = n)
+    (hp64 : ∀ r ∈ recs, r.2.1 < 2 ^ 64) :
     parseVcfRecords n (recLines recs) = some (toRecs recs) := by
   induction recs with
   | nil => rfl
   | cons r rs ih =>
     obtain ⟨h1, h2, h3, h4, h5⟩ := hr r (by simp)
-    have ih' := ih (fun r' hr' => hr r' (by simp [hr']))
-    have hrec := parseVcfRecord_recLine r.1 h1 r.2.1 h2 r.2.2 h3 h4
+    have ih' := ih (fun r' hr' => hr r' (by simp [hr'])) (fun r' hr' => hp64 r' (by simp [hr']))
+    have hrec := parseVcfRecord_recLine r.1 h1 r.2.1 h2 (hp64 r (by simp)) r.2.2 h3 h4
     rw [h5] at hrec
     simp only [recLines, List.map_cons] at ih' ⊢
     unfold parseVcfRecords
@@ -229,7 +245,7 @@ theorem vcfDecode_vcfEncode (cols contigs : List String) (recs : List (String ×
     rw [List.append_nil, splitLines_nil, List.append_nil] at this
     rw [vcfEncode_eq_lines, this]
   unfold vcfDecode
-  rw [h13, hsplit, parseVcfHeaderLines_headerLines cols contigs h.cols_ne h.cols_wf h.cols_nodup hcw]
-  simp [parseVcfRecords_recLines recs cols.length hr]
+  rw [h13, hsplit, parseVcfHeaderLines_headerLines cols contigs h.cols_ne h.cols_wf h.cols_nodup hcw h.contigs_nodup]
+  simp [parseVcfRecords_recLines recs cols.length hr h.pos_fits]
 
 end Sfs
